@@ -20,7 +20,7 @@ GLOB_MODES = ["none", "nullglob", "failglob", "dotext", "noglob"]
 QUICK_CONFIGS = [("default", "none"), ("empty", "none"), ("colon", "nullglob"), ("custom", "failglob"),
                  ("default", "dotext"), ("empty", "noglob"), ("custom", "none"), ("default", "nullglob")]
 
-CONTEXTS = ["dq", "dqb", "arr", "pos", "subst", "assign", "elem", "case", "herestr", "dtest", "dtestq", "redir", "adj",
+CONTEXTS = ["dq", "dqb", "arr", "pos", "subst", "assign", "elem", "case", "herestr", "dtest", "dtestq", "redir", "redir_unq", "adj",
             "unq_noifs", "unq_defifs", "assign_unq_case", "local", "export_env", "arr_star_noifs", "nested_dq",
             "adj_unq_pre", "adj_unq_suf", "adj_unq_mix", "adj_unq_arr"]
 
@@ -74,6 +74,8 @@ def script_for(n, ifs_mode, glob_mode):
         s.append('a=("$%s" "$%s"); argdump -t arr_star_noifs.%d -- ${a[@]}' % (v, w, i))
         s.append("unset IFS")
         s.append('argdump -t unq_defifs.%d -- $%s' % (i, v))
+        # an unquoted redirection target is split like any word; exactly one resulting word names the file, otherwise nothing is opened
+        s.append('if [ -n "$R%d" ]; then ( cd ur.%d && echo x > $%s ) 2>/dev/null; fi' % (i, i, v))
         s.append("case $%s in \"$%s\") argdump -t assign_unq_case.%d -- ok;; *) argdump -t assign_unq_case.%d -- no;; esac" % (v, v, i, i))
         if glob_mode != "noglob":
             s.append("set +f")
@@ -141,6 +143,7 @@ def make_tree(d, values):
             f.write("x")
     for i, v in enumerate(values):
         os.mkdir(os.path.join(d, "rd.%d" % i))
+        os.mkdir(os.path.join(d, "ur.%d" % i))
         if valid_filename(v):
             p = os.path.join(os.fsencode(d), v)
             if not os.path.lexists(p):
@@ -203,6 +206,7 @@ def run_batch(shell, values, ws, cfg):
             pass
         try:
             obs["redir.%d" % i] = sorted(os.listdir(os.fsencode(os.path.join(d, "rd.%d" % i))))
+            obs["redir_unq.%d" % i] = sorted(os.listdir(os.fsencode(os.path.join(d, "ur.%d" % i))))
         except OSError:
             pass
     core.rmtree(d)
@@ -219,6 +223,9 @@ def check_batch(values, ws, obs):
                 want = [v + b"\n"]
             elif ctx == "redir":
                 want = [v] if valid_filename(v) else []
+            elif ctx == "redir_unq":
+                words = blank_split(v)
+                want = [words[0]] if (valid_filename(v) and len(words) == 1 and valid_filename(words[0])) else []
             elif ctx == "export_env":
                 want = [v]
             else:
